@@ -5478,6 +5478,15 @@ int64_t ExpressionEvaluator::evaluate_function_call_impl(const ASTNode *node) {
                                         .variables[full_member_name] =
                                         member_var;
 
+                                    // ネストした構造体メンバの個別変数も
+                                    // 呼び出し先のスコープに作成
+                                    if (member_var.is_struct &&
+                                        !member_var.is_array) {
+                                        interpreter_
+                                            .sync_direct_access_from_struct_value(
+                                                full_member_name, member_var);
+                                    }
+
                                     // 配列メンバの場合、個別要素変数も作成
                                     if (member_var.is_array) {
                                         // ソース側の配列要素変数をコピー
